@@ -181,16 +181,18 @@ def run(ctx):
                          "from events = value of the text (python json), stream of the schema scanner and (arrays of scalars) of the enum scanner identical up to new-line events, "
                          "stream independent of earlier Check/Len; plus the Coq model's stream; non-trivial = text with a container")
     valid = [b"1", b"-0.5e3", b"true", b'"a\\u00e9\\uD83D\\uDE00"', b"{}", b"[]", b' [ ] ', b'{"a":[1,{"b":null}],"\\u006b":[[],{}]}', b"[1, 2 ]", b'"caf\\u00e9"', b'["\\u20AC", "x"]'] + \
-            [jsongen.rand_text(rng) for _ in range(2500 if quick else 80000)]
+            [jsongen.rand_text(rng) for _ in range(8000 if quick else 80000)]
     valid = list(dict.fromkeys(jc.corpus("C06") + valid))
     for t in valid:
         if any(c in t for c in b"{["):
             ctx.nontrivial.add(t)
     res = judge_valid(ctx, "valid", valid)
     judge_cross(ctx, "valid", valid, res)
-    judge_history(ctx, valid[: (600 if quick else 20000)])
+    judge_history(ctx, valid[: (2500 if quick else 20000)])
     ctx.samples.append({"text": valid[len(valid) // 2].decode("latin1"), "events": res[len(valid) // 2]["e"][0][:300]})
     ctx.extra["texts"] = len(valid)
+    import enum_cases
+    enum_cases.stream(ctx, st, "nN", quick, "c06")
     ctx.extra["size_histogram"] = {str(k): sum(1 for t in valid if len(t) // 50 == k) for k in range(0, 12)}
     jc.proof_tail(ctx, st, ["C06_*"])
 
